@@ -267,6 +267,30 @@ func c02Run(e *core.Env) {
 			}
 		}
 	}
+	// high-precision block
+	for iu := range sp.HiUs {
+		if !e.Mine(int64(iu)) {
+			continue
+		}
+		e.State()
+		for _, cc := range sp.HiCtxs {
+			for _, op := range []string{"Round", "Reduce", "RoundToIntegralExact"} {
+				do(op, sp.HiUs[iu], nil, 0, cc)
+			}
+		}
+	}
+	for ip := range sp.HiPairs {
+		if !e.Mine(int64(ip)) {
+			continue
+		}
+		pr := sp.HiPairs[ip]
+		e.State()
+		for _, cc := range sp.HiCtxs {
+			for _, op := range c02Binary {
+				do(op, pr[0], &pr[1], 0, cc)
+			}
+		}
+	}
 	// Sqrt on its own family, precisions 1..9 (and 16), wide and tight ranges
 	sf := sqrtFamily(e.Tier)
 	var sctx []CtxCase
